@@ -283,6 +283,33 @@ theorem C11_used_code_replay (w : World) (f : Nat) (c : Cmd) (i : Nat) (cd : Cod
   · rfl
   · split <;> rfl
 
+/-! ### connection histories -/
+
+/-- **The identity of a connection is its last successful authentication**: after any history of handshake steps
+(and any commands in between — commands never change identity), a final successful login as `c` makes the
+connection's identity `c`, whatever it was authenticated as before. -/
+theorem C11_identity_after_relogin (node : Nat) (steps : List Step) (c : Nat) (hc : c ≠ 0) :
+    Conn.after node (steps ++ [.login c]) = ⟨.auth, c, (Conn.after node steps).node⟩ := by
+  simp [Conn.after, List.foldl_append, Conn.step, hc]
+
+/-- handshake attempts that do not succeed never change an identity already proven, and never create one -/
+theorem C11_identity_unchanged_by_failed_attempts (x : Conn) (st : Step) (h : ∀ c, st ≠ .login c) :
+    (x.step st).cid = x.cid ∧ ((x.step st).kind = .auth ↔ x.kind = .auth) := by
+  cases st with
+  | accept => simp [Conn.step]
+  | login c => exact absurd rfl (h c)
+  | refused => simp only [Conn.step]; split <;> simp_all
+  | pending c => simp only [Conn.step]; split <;> simp_all
+  | failed c => simp only [Conn.step]; split <;> simp_all
+
+/-- **Commands after a re-authentication run as the NEW identity — for every command and every history**: the
+property theorems (`C11_main`, `C11_parties_only`, …) hold for every world, hence for every world whose connections
+are the outcome `connsOf hs` of arbitrary connection histories `hs` (several handshakes on one connection, logins
+of the same client elsewhere); what they see as "the connection's identity" is `ident`, i.e. the last successful
+login of that connection unless a later login of the same client elsewhere took its control connection away. -/
+theorem C11_main_histories (hs : List (Nat × List Step)) (w : World) (hw : w.conns = connsOf hs) (f : Nat) (c : Cmd) :
+    holds w f c (exec .repaired w f c) (exec .repaired w f c.strip) = true := C11_main w f c
+
 /-- **The sender a recipient is told is the connection's identity**: every command packet delivered to another
 connection either names no sender or names exactly the client authenticated on the connection the command
 arrived on; a client-to-client notification always names it. -/
@@ -382,6 +409,16 @@ def wUsed : World :=
 example : exec .repaired wUsed 2 (cmdOf 72 0 0 0) = Run.failResp := by decide
 example : holds wUsed 2 (cmdOf 72 0 0 0) (Run.okResp [.map 0] [] []) (Run.okResp [.map 0] [] []) = false := by decide
 example : holds wUsed 0 (cmdOf 72 0 0 0) (Run.okResp [.map 0] [] []) (Run.okResp [.map 0] [] []) = true := by decide
+/-- one connection authenticates as 1001, then as 1002 (commands in between): it is 1002; its HTTP-domain list shows
+1002's domain, not 1001's, and deleting 1001's domain is refused; a second connection of 1001 that logged in
+before is untouched, one of 1002 that logged in before lost its control connection -/
+def wRe : World :=
+  { conns := connsOf [(0, [.login 1001, .login 1002]), (0, [.login 1001])], maps := [], codes := [], doms := [1001, 1002] }
+example : ident wRe 0 = 1002 ∧ ident wRe 1 = 1001 := by decide
+example : (exec .repaired wRe 0 (cmdOf 87 0 0 0)).view = [.dom 1] := by decide
+example : exec .repaired wRe 0 (cmdOf 86 0 0 0) = Run.failResp := by decide
+example : connsOf [(0, [.login 1002]), (0, [.login 1001, .login 1002])] = [⟨.bare, 0, 0⟩, ⟨.auth, 1002, 0⟩] := by decide
+example : holds wRe 0 (cmdOf 87 0 0 0) (Run.okResp [.dom 0] [] []) (Run.okResp [.dom 0] [] []) = false := by decide
 /-- no executor installed: ConfigGet on the unauthenticated connection 3 pushes an (empty) configuration to
 connection 3 itself and discloses nothing; the listen party gets its own mappings -/
 example : exec .repaired { wStd with noExec := true } 3 (cmdOf 50 0 0 0) = ⟨true, .none, [], [], [⟨3, 51, none⟩], []⟩ := by decide
